@@ -489,6 +489,12 @@ class World:
             self.last_mut = 'setnum'
         elif r < 0.5:
             m = rng.choice(cands)
+            bools = [x for x in cands if x.kind in 'tf']
+            flagged = [x for x in bools if x.kconst or x.ref]
+            if flagged and rng.random() < 0.5:
+                m = rng.choice(flagged)       # the in-place edit must keep the ownership bits
+            elif bools and rng.random() < 0.6:
+                m = rng.choice(bools)
             v = rng.random() < 0.5
             if m.kind in 'tf':
                 nk = 't' if v else 'f'
